@@ -87,7 +87,7 @@ pub fn gen_reqs(r: &mut Rng) -> (Reqs, bool) {
             always,
             if_req,
             prefixes,
-            build: *r.pick(&[0u8, 1, 2, 4, 5]),
+            build: *r.pick(&[0u8, 1, 2, 4, 5, 6]),
         },
         mixed,
     )
@@ -476,7 +476,7 @@ pub fn run(tier: Tier) -> i32 {
     for k in ["host", "always", "if-present", "prefix"] {
         ctx.gate(&format!("requirement kind '{}' violated alone with an otherwise valid signature, refused", k), tally.get(&format!("violated_alone/{}", k)), tier.n(300, 1000));
     }
-    for b in [0, 1, 2, 4, 5] {
+    for b in [0, 1, 2, 4, 5, 6] {
         ctx.gate(&format!("satisfied and accepted via construction path {}", b), tally.get(&format!("satisfied_accepted/build{}", b)), tier.n(300, 1000));
     }
     ctx.gate("`:authority` listed in place of host while the declaration itself names host (or a prefix of it): refused", tally.get("authority_for_a_declared_host_refused"), tier.n(300, 5000));
